@@ -306,6 +306,9 @@ class Env:
                     raise Unspecified("option reference with / without unit")
             else:
                 vals = [st["value"]] if k == "option" else list(st["values"])
+            if ounit is not None and node["unit"] is None and node["type"] in ("int", "float"):
+                # "compared after conversion to the node's unit": the node has none
+                raise Unspecified("option with a unit on a node without unit")
             for lit in vals:
                 v = cast(node["type"], lit)
                 if node["type"] in ("int", "float"):
